@@ -15,14 +15,14 @@ echo "demo files: $DEMOS" | tee -a $LOG
 [ -n "$DEMOS" ] || { echo "no demo test file" | tee -a $LOG; exit 2; }
 # normalise: make sure tree == HEAD + MUTANT.diff
 git checkout -q -- . && git apply MUTANT.diff || { echo "patch does not apply" | tee -a $LOG; exit 2; }
-mkdir -p /tmp/demo-$SID
-for d in $DEMOS; do mkdir -p /tmp/demo-$SID/$(dirname $d); mv $d /tmp/demo-$SID/$d; done
+mkdir -p /tmp/seedconfirm-keep/$SID
+for d in $DEMOS; do mkdir -p /tmp/seedconfirm-keep/$SID/$(dirname $d); mv $d /tmp/seedconfirm-keep/$SID/$d; done
 echo "== build" | tee -a $LOG
 go build ./... >>$LOG 2>&1 || { echo "BUILD FAILED" | tee -a $LOG; exit 1; }
 echo "== full suite with change" | tee -a $LOG
 go test -vet=off -count=1 ./... >>$LOG 2>&1; SUITE=$?
 echo "suite exit=$SUITE" | tee -a $LOG
-for d in $DEMOS; do cp /tmp/demo-$SID/$d $d; done
+for d in $DEMOS; do cp /tmp/seedconfirm-keep/$SID/$d $d; done
 PKGS=$(for d in $DEMOS; do echo ./$(dirname $d); done | sort -u)
 echo "== demo with change ($PKGS)" | tee -a $LOG
 go test -vet=off -count=1 -run 'TestSeededDemo' $PKGS >>$LOG 2>&1; WITH=$?
